@@ -1345,6 +1345,40 @@ static void run_tagged_delete(State& S) {
   free_all(S);
 }
 
+// known finding K3 (C13, C10): with a per-thread segment target (target_segments_per_thread > 0, or mi_collect_reduce) a thread that needs a fresh segment abandons
+// whole segments of its own -- with the pages of EVERY heap of the thread that live there, also those of a heap made with mi_heap_new: its live blocks are then no
+// longer attributed to it (mi_heap_contains_block / mi_heap_check_owned) and mi_heap_destroy no longer releases them.  One dedicated case per run shows exactly that.
+static void run_target_heap(State& S) {
+  S.sm.refutes_generic = "C13";
+  vf_crash_refutes = "C13";
+  mi_heap_t* H = mi_heap_new();
+  if (H == nullptr) vf_trip("harness", "", "mi_heap_new failed");
+  HeapEnt he; he.h = H; he.alive = true; S.heaps.push_back(he);
+  const int hi = (int)S.heaps.size() - 1;
+  const size_t sz = 600 + (size_t)below(S, 600);
+  const size_t N = 30000 + (size_t)below(S, 20000);
+  std::vector<vf::Blk*> hb, db;
+  // blocks of H and of the default heap, interleaved: both heaps have full pages in the same segments
+  for (size_t i = 0; i < N; i++) {
+    void* p = mi_heap_malloc(H, sz); if (p) { vf::Blk* b = accept_block(S, p, sz, hi, 0, 0, false, EP_heap_malloc); if (b) hb.push_back(b); }
+    vf::Blk* d = do_alloc(S, EP_malloc, sz); if (d) db.push_back(d);
+  }
+  vf_cur_what = "mi_option_set(target_segments_per_thread)";
+  mi_option_set(mi_option_target_segments_per_thread, 2);
+  for (size_t i = 0; i < N; i++) { vf::Blk* d = do_alloc(S, EP_malloc, sz); if (d) db.push_back(d); }      // needs fresh segments: the thread abandons segments of its own
+  vf_cur_what = "query under a per-thread segment target";
+  size_t bad = 0; void* first = nullptr;
+  for (vf::Blk* b : hb) { S.sm.verify(b, "block of a first-class heap under a per-thread segment target", SIZE_MAX, "C13"); if (!mi_heap_contains_block(H, b->p) || !mi_heap_check_owned(H, b->p)) { bad++; if (!first) first = b->p; } }
+  if (bad > 0)
+    vf_trip("heap-contains-block", "C13,C10", "after target_segments_per_thread was set to 2 and the default heap allocated %zu more blocks, %zu of %zu live blocks of a heap made with mi_heap_new are "
+            "no longer attributed to it (first: %p): their pages were abandoned by force together with their segment", N, bad, hb.size(), first);
+  // exactly the blocks of H die with it
+  for (vf::Blk* b : hb) S.sm.remove(b);
+  mi_heap_destroy(H); S.heaps[hi].alive = false;
+  for (vf::Blk* d : db) do_free(S, d);
+  S.sm.verify_all("end");
+}
+
 int main(int argc, char** argv) {
   static State S;
   G = &S;
@@ -1388,6 +1422,7 @@ int main(int argc, char** argv) {
   else if (p == "ledger" || p == "purge" || p == "faults") run_os_profile(S);
   else if (p == "arena") run_arena_profile(S);
   else if (p == "tagged-delete") run_tagged_delete(S);
+  else if (p == "target-heap") run_target_heap(S);
   else run_history(S);
   vf_finish_ok();
 }
